@@ -213,4 +213,30 @@ R2OK(ts, s1, s2, obs) ==
       nA == Cardinality(cA) nB == Cardinality(cB) nAB == Cardinality(cA \cap cB)
       dn == n * nAB - nA * nB
   IN RatEq(obs, dn * dn, nA * (n - nA) * nB * (n - nB))
+
+\* ---- statistics of real-valued sample weights, in exact scaled integers --------------------------------------------
+\* n x_k - c T_k : n times the column-k weight below a node / on an allele, centred by the mean weight (c = samples there)
+CentredSum(ts, W, X, k) ==
+  LET n == Cardinality(SamplesOf(ts)) Tot == WSum(ts, W, SamplesOf(ts)) x == WSum(ts, W, X) IN n * x[k] - Cardinality(X \cap SamplesOf(ts)) * Tot[k]
+\* trait_covariance: sum over branches / alleles of (centred weight sum)^2 / (2 (n-1)^2), both sides of every branch;
+\* result scaled by 2 n^2 (n-1)^2
+TraitCovTerm(ts, W, X, k) == LET v == CentredSum(ts, W, X, k) IN 2 * v * v
+TraitCov(ts, mode, W, k, a, b) ==
+  IF mode = "site" THEN
+    Sum(StatSitesIn(ts, a, b), LAMBDA s : Sum(SiteAlleles(ts, s), LAMBDA al : LET X == {v \in SamplesOf(ts) : StateOf(ts, s, v) = al} IN
+          LET c == CentredSum(ts, W, X, k) IN c * c))
+  ELSE Sum(Cells(a, b), LAMBDA x : LET par == ParentAt(ts, x) IN
+         Sum({u \in NodesOf(ts) : par[u] # NULL}, LAMBDA u : (TimeOf(ts, par[u]) - TimeOf(ts, u)) * TraitCovTerm(ts, W, Desc(par, u), k)))
+\* genetic_relatedness_weighted: (x_i - T_i p)(x_j - T_j p) with p the fraction of samples below (centred), or x_i x_j;
+\* scaled by n^2 when centred
+GrwF(ts, W, X, i, j, centre) ==
+  IF centre THEN CentredSum(ts, W, X, i) * CentredSum(ts, W, X, j) ELSE LET x == WSum(ts, W, X) IN x[i] * x[j]
+GrwTerm(ts, W, X, i, j, centre, pol) == GrwF(ts, W, X, i, j, centre) + (IF pol THEN 0 ELSE GrwF(ts, W, SamplesOf(ts) \ X, i, j, centre))
+Grw(ts, mode, W, idx, centre, pol, a, b) ==
+  LET i == idx[1] + 1 j == idx[2] + 1 IN
+  IF mode = "site" THEN
+    Sum(StatSitesIn(ts, a, b), LAMBDA s : Sum({al \in SiteAlleles(ts, s) : ~pol \/ al # ts.sites[s + 1].anc}, LAMBDA al :
+          GrwF(ts, W, {v \in SamplesOf(ts) : StateOf(ts, s, v) = al}, i, j, centre)))
+  ELSE Sum(Cells(a, b), LAMBDA x : LET par == ParentAt(ts, x) IN
+         Sum({u \in NodesOf(ts) : par[u] # NULL}, LAMBDA u : (TimeOf(ts, par[u]) - TimeOf(ts, u)) * GrwTerm(ts, W, Desc(par, u) \cap SamplesOf(ts), i, j, centre, pol)))
 =============================================================================
